@@ -56,6 +56,7 @@ fn clean_command(path: &str) -> Result<()> {
     let paths = std::fs::read_dir(path)?;
 
     let mut removed = 0;
+    let mut failed = 0;
 
     for path in paths {
         let path = path?;
@@ -67,13 +68,22 @@ fn clean_command(path: &str) -> Result<()> {
             .extension()
             .is_some_and(|ext| ext == "mmm")
         {
-            std::fs::remove_file(path.path())?;
+            // one file that cannot be removed must not keep the others in place
+            if let Err(err) = std::fs::remove_file(path.path()) {
+                eprintln!("could not remove {}: {err}", path.path().display());
+                failed += 1;
+                continue;
+            }
             println!("clean {}", path.path().display().to_string().blue());
             removed += 1;
         }
     }
 
     println!("Removed {removed} files");
+
+    if failed > 0 {
+        bail!("{failed} bytecode file(s) could not be removed")
+    }
 
     Ok(())
 }
